@@ -23,6 +23,7 @@ type Options struct {
 	MapOrderChoice bool
 	StopOnFirst    bool
 	KeepLogs       bool
+	NoMerge        bool
 	Verbose        bool
 }
 
@@ -86,6 +87,7 @@ type Run struct {
 	stopped bool
 
 	forks, enumCount, memEvents     atomic.Int64
+	merges                          atomic.Int64
 	paths, done, killed, panicked   atomic.Int64
 	failed, steps, obl, discharged  atomic.Int64
 	violations                      []Violation
